@@ -28,7 +28,12 @@ def gen_tree(rng, max_nodes=10, links=True, odd_links=False):
         elif k < 0.75 or not links:
             ck = rng.random()
             if ck < 0.8: content = (("# " if name.endswith((".gmi", ".gemini")) and rng.random() < 0.5 else "") + "SENTINEL-%d-%s" % (i, name)).encode("utf-8")
-            elif ck < 0.9: content = b"SENTINEL-%d-\xff\xfe binary" % i
+            elif ck < 0.86: content = b"SENTINEL-%d-\xff\xfe binary" % i
+            elif ck < 0.9:
+                # text-mode corners: CRLF / lone CR line ends, a byte order mark at the start or inside, a trailing CR
+                content = rng.choice([b"SENTINEL-%d-crlf\r\nsecond line\r\n", b"SENTINEL-%d-cr\rsecond\r\rthird", b"\xef\xbb\xbfSENTINEL-%d-bom\nx",
+                                      b"SENTINEL-%d-midbom \xef\xbb\xbf tail\r", b"SENTINEL-%d-mixed\n\r\n\r\r\n"]) 
+                content = content % i if b"%d" in content else content
             else: content = b""
             nodes.append((rel, "f", content))
         else:
@@ -187,3 +192,9 @@ def encoded_slash_spellings(rel):
     segs = comps(rel)
     tail = "/".join(segs)
     return ["/zz/..%2f" + tail, "/zz/%2e%2e%2F" + tail, "/zz%2f../" + tail]
+
+def text_mode(payload):
+    """what reading these bytes in text mode (UTF-8, universal newlines) yields - the referee's notion of "the content of the file" as text; None = not UTF-8"""
+    try: t = payload.decode("utf-8")
+    except UnicodeDecodeError: return None
+    return t.replace("\r\n", "\n").replace("\r", "\n")
